@@ -31,6 +31,10 @@ def gen_cases(tier, seed):
     # tokens whose signature has a zero top byte
     for i in range(2 if tier == "quick" else 12):
         yield {"seed": "%d:ck%d" % (seed, i), "tokens": 4, "craft": "key"}
+    # histories: the key pair at a path is generated AGAIN (keygen overwrites) and the signers are loaded again in the same process;
+    # tokens handed over in a bytearray that the caller re-uses for the next challenge
+    for i in range(2 if tier == "quick" else 10):
+        yield {"seed": "%d:rg%d" % (seed, i), "tokens": 3, "craft": "regen"}
     for i in range(2 if tier == "quick" else 12):
         yield {"seed": "%d:ct%d" % (seed, i), "tokens": 2, "craft": "token", "crafted_tokens": 2 if tier == "quick" else 4}
 
@@ -97,6 +101,13 @@ def run_case(case):
                 kg.keygen(path)
         else:
             kg.keygen(path)
+        if case.get("craft") == "regen":
+            # an older pair at the same path, loaded and used by every signer class, is then overwritten by a new keygen()
+            old = [PythonRSASigner.FromRSAKeyPath(path), CryptographySigner(path), PycryptodomeAuthSigner(path)]
+            for s_ in old:
+                s_.Sign(b"\x11" * 20)
+            kg.keygen(path)
+            stats["regenerated_pairs"] = 1
         with open(path, "rb") as f:
             priv = serialization.load_pem_private_key(f.read(), password=None)
         nums = priv.private_numbers()
@@ -156,6 +167,21 @@ def run_case(case):
                     tokens.append(tok)
                     stats["crafted_tokens"] = stats.get("crafted_tokens", 0) + 1
         pubkey = priv.public_key()
+        if case.get("craft") == "regen":
+            # the same buffer object carries one challenge after the other (bytes-like tokens; python-rsa only takes bytes)
+            buf = bytearray(20)
+            for tok in tokens[:4]:
+                buf[:] = tok
+                for name in ("CryptographySigner", "PycryptodomeAuthSigner"):
+                    try:
+                        sig = bytes(signers[name].Sign(buf))
+                    except Exception as ex:  # noqa
+                        viol.append({"mechanism": "sign-raised:" + name, "detail": "%s.Sign(bytearray token) raised %s: %s" % (name, type(ex).__name__, ex)})
+                        continue
+                    em = pow(int.from_bytes(sig, "big"), e, n).to_bytes(k, "big")
+                    stats["reused_buffer_signatures"] = stats.get("reused_buffer_signatures", 0) + 1
+                    if len(sig) != k or em != emsa(tok, k):
+                        viol.append({"mechanism": "signature-invalid-reused-buffer:" + name, "detail": "%s.Sign() of a re-used bytearray holding token %s does not verify for that token" % (name, tok.hex())})
         for tok in tokens:
             stats["tokens"] += 1
             sigs = {}
